@@ -541,6 +541,10 @@ class Client:
         code, data = self.__send_command("STARTTLS")
         if code != "OK":
             return False
+        if len(self.__read_buffer):
+            # Whatever was received in clear text after the response
+            # must not be taken for data sent over TLS.
+            raise Error("Unexpected data received before the TLS negotiation")
         context = ssl.create_default_context()
         if certfile is not None:
             context.load_cert_chain(certfile, keyfile=keyfile)
